@@ -54,7 +54,7 @@ func skolemize(t *T, sks *[]*T) *T {
 
 // instances returns ground instances of the single-Int-variable universals among hyps.
 func instances(hyps []*T, sks []*T, neighbours bool) []*T {
-	if len(sks) == 0 || len(sks) > 4 {
+	if len(sks) == 0 || len(sks) > 6 {
 		return nil
 	}
 	var out []*T
@@ -91,17 +91,24 @@ func instances(hyps []*T, sks []*T, neighbours bool) []*T {
 			if h.Pat != nil {
 				return
 			}
-			if len(h.Bnd) > 1 && len(h.Bnd) == len(sks) {
-				// several bound variables: positional instantiation with the goal's skolems (the
-				// invariant "forall k, t" is proved from the same invariant one iteration earlier)
-				m := map[*T]*T{}
-				for i, b := range h.Bnd {
-					if b.Sort != sks[i].Sort {
-						return
+			if n := len(h.Bnd); n > 1 && n <= len(sks) {
+				// several bound variables: positional instantiation with every window of the goal's
+				// skolems (they are created in the order of the goal's quantifiers; the invariant
+				// "forall k, t" is proved from the same invariant one iteration earlier)
+				for w := 0; w+n <= len(sks); w++ {
+					m := map[*T]*T{}
+					ok := true
+					for i, b := range h.Bnd {
+						if b.Sort != sks[w+i].Sort {
+							ok = false
+							break
+						}
+						m[b] = sks[w+i]
 					}
-					m[b] = sks[i]
+					if ok {
+						emit(term.Subst(h.Args[0], m), ctx)
+					}
 				}
-				emit(term.Subst(h.Args[0], m), ctx)
 				return
 			}
 			if len(h.Bnd) != 1 || h.Bnd[0].Sort != term.Int {
